@@ -196,13 +196,18 @@ class Engine:
             if g.random() < 0.5 and not files[orphan + ".md"].startswith("---"):
                 files[orphan + ".md"] = "---\norphan: true\n---\n\n" + files[orphan + ".md"]
             # ... and references to it from inside the tree, in every "any"-style spelling
-            files[orphan + ".md"] = files[orphan + ".md"].rstrip("\n") + "\n\n(orph-lab)=\n## Orphan Section\n\ntext\n"
+            files[orphan + ".md"] = files[orphan + ".md"].rstrip("\n") + (
+                "\n\n(orph-lab)=\n## Orphan Section\n\ntext\n\n```{py:function} orphmod.orph_func(x)\ndoc\n```\n\n"
+                "```{c:function} int orph_cfunc(int x)\ndoc\n```\n\n```{glossary}\norphterm\n  definition\n```\n")
             others = [d for d in proj["docs"] if d != orphan]
             src = g.choice(others)
             rel = gd.relpath_from(src, orphan)
             files[src + ".md"] = files[src + ".md"].rstrip("\n") + (
                 f"\n\n[t](orph-lab) [](#orph-lab) [t](/{orphan}) []({rel}.md) []({rel}.md#orphan-section) "
-                f"{{ref}}`orph-lab` {{doc}}`/{orphan}` <project:#orph-lab> <project:{rel}.md>\n")
+                f"{{ref}}`orph-lab` {{doc}}`/{orphan}` <project:#orph-lab> <project:{rel}.md> "
+                # objects of other domains described on the orphan page: their own resolvers build the reference
+                f"[x](#orphmod.orph_func) [](orphmod.orph_func) {{py:func}}`orphmod.orph_func` [](#orph_cfunc) "
+                f"{{term}}`orphterm` [](#orphterm)\n")
             hazards.append("orphan_document")
         urls: dict = {}
         inv_hazards: list = []
